@@ -239,6 +239,37 @@ def check(ctx):
            else "get_all_statistics does not map every StatisticsType "
                 "member's value to get_statistic(member)",
            key="C12.1:all-statistics")
+    if len(sets) == 1:
+        # every statistic is stored, whatever its value: a test of the
+        # value's truthiness drops statistics that are exactly 0 (std of a
+        # constant error array, min of an exact match)
+        e = sets[0]
+        val = e.data["value"]
+        ats = [a for a in tm.atoms(e.live) if a.op != "iter"]
+        truthy = [a for a in ats if a is val or (
+            a.op == "cmp" and a.args[0] in ("Gt", "NotEq", "Lt") and
+            a.args[1] is val and tm.is_const(a.args[2]) and
+            a.args[2].args[1] == 0)]
+        none_tests = [a for a in ats if a.op == "cmp" and
+                      a.args[0] in ("Is", "IsNot") and a.args[1] is val and
+                      a.args[2] is tm.NONE]
+        rest = [a for a in ats if a not in truthy and a not in none_tests
+                and a.op != "exc"]
+        if truthy:
+            ctx.ob("C12.1", e, False,
+                   f"get_all_statistics stores a statistic only if "
+                   f"`{fmt(truthy[0])[:60]}` is true: statistics that are "
+                   f"exactly 0.0 (std of a constant error, a minimum of 0) "
+                   f"are missing from the result",
+                   key="C12.1:all-statistics:every-value")
+        elif rest:
+            ctx.undecidable("C12.1", e, f"get_all_statistics: a statistic "
+                            f"is stored only under {fmt(rest[0])[:80]} "
+                            f"(unknown idiom)")
+        else:
+            ctx.ob("C12.1", e, True,
+                   "get_all_statistics stores every supported statistic "
+                   "whatever its value", key="C12.1:all-statistics:every-value")
     h = prog.func(f"{PE}.get_result")
     rh = Interp(prog).run(h)
     st = [e for e in rh.of_kind("call")
